@@ -33,7 +33,8 @@ REQUIRED = {"node_checks_judged": 20000, "contract_events": 3000,
             "recorded_value_checks": 2000, "constraint_model_updates": 1000,
             "ill_conditioned_updates": 5}
 MIN_NONTRIVIAL = {"quick": 50, "thorough": 400}
-PLAN = [("driven", 500, 8000), ("real", 300, 4000), ("hostile", 200, 3000)]
+PLAN = [("driven", 500, 8000), ("real", 300, 4000), ("hostile", 200, 3000),
+        ("repotests", 1, 1)]
 MAXOPS = {"quick": 40, "thorough": 60}
 
 
@@ -131,4 +132,9 @@ def run_real(case):
 def run_case(case):
     if case["fam"] == "driven":
         return run_driven(case)
+    if case["fam"] == "repotests":
+        from vlib import repotests
+        viols, counts = repotests.run(ID)
+        return e2e.record(case, viols, tags=["fam:repotests"], counts=counts,
+                          nt="repotests")
     return run_real(case)
